@@ -11,6 +11,7 @@ import (
 
 	"orbverif/fw"
 	"orbverif/run"
+	"orbverif/spec"
 	"orbverif/world"
 )
 
@@ -150,4 +151,77 @@ func gasExhaustion(e *fw.Env) {
 	e.Res.CountN("gas:consumption-points-seen", totalPoints)
 	e.Res.CountN("gas:deliveries-cut", cuts)
 	_ = sdk.Context{}
+}
+
+// statsLimitC03: the one failure the dispatcher deliberately swallows is that of the statistics
+// update. On a chain whose statistics for a route are at the representation limit (imported totals
+// just below 2^256-1, count at 2^64-1) a transfer may still be acknowledged as successful - but
+// only as a complete transfer: fees paid and the rest handed to the route, exactly as the model
+// says. A success acknowledgement over anything less is a partial success.
+func statsLimitC03(e *fw.Env) {
+	if e.Shard != 1%e.Shards && !e.Thorough() {
+		return
+	}
+	near := new(big.Int).Sub(MaxU256, big.NewInt(500000)).String()
+	mk := func(proto, cp string) (string, string) {
+		a := fmt.Sprintf(`{"source_id":{"protocol_id":"PROTOCOL_IBC","counterparty_id":"channel-0"},"destination_id":{"protocol_id":"%s","counterparty_id":"%s"},"denom":"uusdc","amount_dispatched":{"incoming":"%s","outgoing":"%s"}}`, proto, cp, near, near)
+		c := fmt.Sprintf(`{"source_id":{"protocol_id":"PROTOCOL_IBC","counterparty_id":"channel-0"},"destination_id":{"protocol_id":"%s","counterparty_id":"%s"},"count":"18446744073709551615"}`, proto, cp)
+		return a, c
+	}
+	a1, c1 := mk("PROTOCOL_INTERNAL", "noble")
+	a2, c2 := mk("PROTOCOL_CCTP", "0")
+	a3, c3 := mk("PROTOCOL_HYPERLANE", "1")
+	gen := fmt.Sprintf(`{"adapter_genesis":{"params":{"max_passthrough_payload_size":0}},"dispatcher_genesis":{"dispatched_amounts":[%s,%s,%s],"dispatched_counts":[%s,%s,%s]},"forwarder_genesis":{"paused_protocol_ids":[],"paused_cross_chain_ids":[]},"executor_genesis":{"paused_action_ids":[]}}`, a1, a2, a3, c1, c2, c3)
+	l2, err := NewLab(world.Config{OrbiterGenesis: []byte(gen)})
+	if err != nil {
+		e.Res.Inconc("near-limit genesis world: %v", err)
+		return
+	}
+	w := l2.W
+	mint := make([]byte, 32)
+	mint[31] = 9
+	zero := "0"
+	routes := []spec.Route{
+		{Kind: "internal", To: w.K("rcpt2").String()},
+		{Kind: "cctp", Domain: 0, MintRecipient: mint},
+		{Kind: "hyp", Domain: 1, TokenID: w.Hyp.TokenUSDC.Bytes(), Recipient: mint, GasLimit: &zero, MaxFee: &spec.Coin{Denom: world.USDN, Amount: "0"}},
+	}
+	for ri, rt := range routes {
+		for _, withFee := range []bool{false, true} {
+			s := &spec.Spec{Route: rt}
+			if withFee {
+				s.HasFee, s.Fees = true, []spec.Fee{{Recipient: w.K("fee2").String(), IsBPS: true, BPS: 100}, {Recipient: w.K("fee1").String(), Amount: "17"}}
+			}
+			t := run.Transfer{Pair: w.Channels[0], Denom: world.USDC, Amount: "1000000", Sender: w.K("bob").String(), Receiver: OrbiterReceiver(), Spec: s}
+			for _, mode := range []run.Mode{{Kind: "H"}, {Kind: "C", Mod: w.OrbiterStack()}} {
+				ctx, _ := l2.Base.CacheContext()
+				e.Log(map[string]any{"stats_limit_route": rt.Kind, "fee": withFee, "mode": mode.Kind})
+				o := run.Do(w, ctx, t, mode)
+				e.Res.Eval()
+				MonPanic(e.Res, o)
+				if o.Res.Panic != nil || o.Res.Err != nil {
+					continue
+				}
+				wtn := map[string]any{"genesis": "statistics of the route at 2^256-1-500000, count at 2^64-1", "transfer": t, "mode": mode.Kind, "outcome": o.Res.String(), "delta": o.Delta.String()}
+				tags := map[string]string{"site": "statistics-at-representation-limit"}
+				switch {
+				case o.Res.Ack == nil:
+					e.Res.Violate(fw.Violation{Property: "C03", Kind: "no-acknowledgement-after-failure", Tags: tags, Detail: "no acknowledgement", Witness: wtn})
+				case o.Success():
+					tmp := fw.NewResult("C02")
+					MonC02(tmp, o)
+					MonC01(tmp, o)
+					if len(tmp.Violations) > 0 {
+						e.Res.Violate(fw.Violation{Property: "C03", Kind: "success-acknowledgement-before-fund-movements-completed", Tags: tags,
+							Detail: fmt.Sprintf("route %s (fee=%v): the statistics cannot take the transfer; the acknowledgement is a success, yet the transfer is not complete: %s", rt.Kind, withFee, tmp.Violations[0].Detail), Witness: wtn})
+					}
+				default:
+					if len(o.Delta.Bal) != 0 || len(o.Delta.Supply) != 0 {
+						e.Res.Violate(fw.Violation{Property: "C03", Kind: "effects-survive-error-acknowledgement", Tags: tags, Detail: o.Delta.String(), Witness: wtn})
+					}
+				}
+				e.Res.Sig("stats-limit|%d|fee=%v|%s|%s", ri, withFee, mode.Kind, outcomeClass(o))
+			}
+		}
+	}
 }
